@@ -173,9 +173,26 @@ Local Open Scope N_scope.`
 		rd := render(s, lay, o)
 		jobs = append(jobs, job{stream, rd, toCase(stream, rd)})
 	}
-	for _, s := range targeted() {
+	for i, s := range targeted() {
 		add("targeted", s, layoutOpts{plain: true})
 		add("targeted", s, layoutOpts{})
+		add("targeted", s, layoutOpts{crlf: true, plain: i%2 == 0})
+	}
+	// tiny files: every import order of stars and chains of 2-4 (thorough: 5) files that hold one or two body-less
+	// applications (or one shortcut endpoint / annotation), the same application in every file or applications of one
+	// token shape; plain layout (nothing in front of the first header), some with CRLF, a third also with random layout
+	maxTiny := 4
+	if c.Thorough() {
+		maxTiny = 5
+	}
+	for i, s := range g.tinySpecs(maxTiny) {
+		add("tiny", s, layoutOpts{plain: true, crlf: i%7 == 3})
+		if i%3 == 0 {
+			add("tiny", s, layoutOpts{crlf: i%2 == 0})
+		}
+	}
+	for i := 0; i < n/10; i++ {
+		add("tiny", g.tinyRandom(), layoutOpts{plain: i%2 == 0})
 	}
 	for i := 0; i < n; i++ {
 		var s Spec
@@ -192,7 +209,7 @@ Local Open Scope N_scope.`
 		if i%3 == 0 {
 			g.everywhere(&s)
 		}
-		add("random", s, layoutOpts{plain: i%10 == 9})
+		add("random", s, layoutOpts{plain: i%10 == 9, crlf: i%7 == 3})
 	}
 	// import graphs of 3-5 files with cross, diamond and back edges; one app re-opened in every file
 	for i := 0; i < n/5; i++ {
@@ -232,6 +249,7 @@ Local Open Scope N_scope.`
 		for _, d := range rd.Decls {
 			byKey[d.Key]++
 			c.Hist("decl:" + kindClass[d.Kind])
+			c.Hist(fmt.Sprintf("kind:%d", d.Kind))
 			if d.Kind == kMethod {
 				c.Hist("verb:" + d.Show)
 			}
